@@ -63,6 +63,8 @@ func (r *Run) makeSched(b *BatchSpec) Scheduler {
 		return &stickySched{rng: NewSplitMix(b.SchedSeed), den: 4, last: -1}
 	case "preempt":
 		return &preemptSched{A: b.PreemptA, K: b.PreemptK, inner: randSched{NewSplitMix(b.SchedSeed)}}
+	case "preempt2":
+		return &preempt2Sched{A: b.PreemptA, K: b.PreemptK, B: b.PreemptB, KB: b.PreemptKB, inner: randSched{NewSplitMix(b.SchedSeed)}}
 	case "replay":
 		return &replaySched{dec: b.Decisions}
 	}
@@ -536,6 +538,13 @@ func (r *Run) checkLinearizable(o *batchOutcome) {
 		if r.Sc.Prop == "C07" && seqs > 0 {
 			prop = "C07"
 		}
+		if r.Sc.Prop == "C09" {
+			for _, c := range o.cmds {
+				if c.Op == "prune" {
+					prop = "C09"
+				}
+			}
+		}
 		var desc []string
 		for i, c := range o.cmds {
 			p := o.procs[i]
@@ -658,6 +667,7 @@ type schedPlan struct {
 	strategy string
 	seed     uint64
 	a, k     int
+	b, kb    int
 }
 
 func genBatch(prop string, g *Gen, m *Model, rng *SplitMix) []Cmd {
@@ -751,10 +761,41 @@ func genBatch(prop string, g *Gen, m *Model, rng *SplitMix) []Cmd {
 				cmds = append(cmds, Cmd{Op: "list", LReady: true})
 			}
 		}
+	case "C09":
+		// prune racing writers that make its targets ineligible
+		cmds = []Cmd{{Op: "prune", Yes: true}}
+		if t, ok := g.liveOf(m, func(it *MItem) bool { return !it.IsEpic && finished(it.State) }); ok {
+			cmds = append(cmds, Cmd{Op: "set", ID: t, State: sp("todo")})
+		}
+		if e, ok := g.liveOf(m, func(it *MItem) bool {
+			if !it.IsEpic {
+				return false
+			}
+			for _, t := range m.Tasks() {
+				if t.Epic == it.ID && !finished(t.State) {
+					return false
+				}
+			}
+			return true
+		}); ok {
+			cmds = append(cmds, Cmd{Op: "new_task", Title: sp(g.text("title")), Epic: &e})
+		}
+		if len(cmds) < 3 {
+			cmds = append(cmds, mutation())
+		}
 	case "C10":
 		// a lock holder is stalled inside its lock section while the commands
 		// under test run: they must fail with lock busy and change nothing
-		cmds = []Cmd{mutation()}
+		// (commands whose reply is built after the write are the interesting
+		// ones: set --json and claim <id> re-read the store once they are done)
+		t := taskRef()
+		first := Cmd{Op: "set", ID: t, State: sp(g.oneOf("done", "blocked", "todo", "canceled")), Agent: agent()}
+		if rng.Chance(1, 3) {
+			first = Cmd{Op: "claim_id", ID: t, Agent: agent()}
+		} else if rng.Chance(1, 3) {
+			first = mutation()
+		}
+		cmds = []Cmd{first}
 		n := 1 + rng.Intn(3)
 		for i := 0; i < n; i++ {
 			cmds = append(cmds, mutation())
@@ -815,8 +856,8 @@ func runConcSample(bin, prop string, seed uint64, thorough bool) *RunReport {
 		sc.Steps = append(sc.Steps, st)
 		r.ExecStep(st)
 	}
-	if (prop == "C01" || prop == "C02" || prop == "C13") && rng.Chance(1, 4) {
-		st := Step{Disk: &DiskOp{Kind: "inflate", N: 12 + rng.Intn(30), Pos: rng.Intn(1 << 16)}}
+	if (prop == "C01" || prop == "C02") && rng.Chance(1, 6) {
+		st := Step{Disk: &DiskOp{Kind: "inflate", N: 10 + rng.Intn(16), Pos: rng.Intn(1 << 16)}}
 		sc.Steps = append(sc.Steps, st)
 		r.ExecStep(st)
 	}
@@ -846,9 +887,9 @@ func runConcSample(bin, prop string, seed uint64, thorough bool) *RunReport {
 			if c.Op == "claim" && len(sweepers) < 2 {
 				sweepers = append(sweepers, i)
 			}
-		case "C10":
+		case "C10", "C09":
 			if i == 0 {
-				sweepers = append(sweepers, i) // the stalled lock holder
+				sweepers = append(sweepers, i) // the stalled lock holder / the pruner
 			}
 		case "C13":
 			sweepers = append(sweepers, i) // readers against writers and writers against readers
@@ -869,13 +910,43 @@ func runConcSample(bin, prop string, seed uint64, thorough bool) *RunReport {
 		for i := 0; i <= k; i++ {
 			plans = append(plans, schedPlan{strategy: "preempt", seed: rng.Uint64(), a: a, k: i})
 		}
+		// two preemptions: a competitor B parked right after taking the lock
+		// while A continues from each of its points k
+		if prop != "C13" && a == sweepers[0] {
+			b := -1
+			for off := 1; off < len(cmds); off++ {
+				j := (a + off) % len(cmds)
+				if !cmds[j].IsRead() {
+					b = j
+					break
+				}
+			}
+			if b >= 0 {
+				r.Restore(snap)
+				r.W.Amb = Ambient{}
+				pb := r.W.RunOne(r.spec(literal(cmds[b], r.M)))
+				r.W.Amb = amb
+				kb := -1
+				for _, e := range pb.VisibleEvents() {
+					if e.Op == "flock" && e.Flags&syscall.LOCK_UN == 0 && e.Errno == 0 {
+						kb = e.K + 1
+						break
+					}
+				}
+				if kb > 0 {
+					for i := 1; i <= k; i++ {
+						plans = append(plans, schedPlan{strategy: "preempt2", seed: rng.Uint64(), a: a, k: i, b: b, kb: kb})
+					}
+				}
+			}
+		}
 	}
 	execs := 0
 	ilv := map[string]bool{}
 	for _, pl := range plans {
 		r.Restore(snap)
 		nv := len(r.VL.V)
-		b := &BatchSpec{Cmds: cmds, Strategy: pl.strategy, SchedSeed: pl.seed, PreemptA: pl.a, PreemptK: pl.k}
+		b := &BatchSpec{Cmds: cmds, Strategy: pl.strategy, SchedSeed: pl.seed, PreemptA: pl.a, PreemptK: pl.k, PreemptB: pl.b, PreemptKB: pl.kb}
 		r.W.IlvHash.Reset()
 		r.W.lastRun = -1
 		r.DoBatch(b)
